@@ -676,8 +676,20 @@ macro_rules! with_iter {
                     }
                 }
             }
-            Op::CtxRep => {
+            Op::CtxRep if g.p.ok => {
                 let $it = $item.repeated().configure(|cfg, ctx: &Val| cfg.exactly(ctx.flat_string().chars().count()));
+                $body
+            }
+            Op::CtxRep => {
+                let qid = g.id;
+                let $it = $item.repeated().try_configure(move |cfg, ctx: &Val, span| {
+                    let n = ctx.flat_string().chars().count();
+                    if n == 2 {
+                        Err(ER::user(span, format!("Q{}", qid)))
+                    } else {
+                        Ok(cfg.exactly(n))
+                    }
+                });
                 $body
             }
             Op::Sep => {
